@@ -82,6 +82,11 @@ type OpRec struct {
 	ReadKvRev uint64
 	ReadVal   []byte
 	ReadErr   string
+	// the same read phrased as a range over exactly that key
+	ListHdr   uint64
+	ListN     int
+	ListKvRev uint64
+	ListErr   string
 }
 
 func (r *OpRec) String() string {
@@ -448,6 +453,19 @@ func RunConc(c *ConcCase) (*ConcHistory, error) {
 				if c.ReadOwn && err == nil && succeeded && hdr != nil && op.Kind != "delete" {
 					r.DidRead = true
 					if c.API == "etcd" {
+						if lr, lerr := etcdSrv.Range(ctx, &etcdserverpb.RangeRequest{Key: []byte(key), RangeEnd: append([]byte(key), 0), Revision: int64(hdr.Revision)}); lerr != nil {
+							r.ListErr = lerr.Error()
+						} else {
+							if lr.Header != nil {
+								r.ListHdr = uint64(lr.Header.Revision)
+							}
+							r.ListN = len(lr.Kvs)
+							for _, kv := range lr.Kvs {
+								if uint64(kv.ModRevision) > r.ListKvRev {
+									r.ListKvRev = uint64(kv.ModRevision)
+								}
+							}
+						}
 						rr, rerr := etcdSrv.Range(ctx, &etcdserverpb.RangeRequest{Key: []byte(key), Revision: int64(hdr.Revision)})
 						if rerr != nil {
 							r.ReadErr = rerr.Error()
@@ -460,6 +478,20 @@ func RunConc(c *ConcCase) (*ConcHistory, error) {
 							}
 						}
 					} else {
+						lr, lerr := env.B.List(ctx, &proto.RangeRequest{Key: []byte(key), End: append([]byte(key), 0), Revision: hdr.Revision})
+						if lerr != nil {
+							r.ListErr = lerr.Error()
+						} else {
+							if lr.Header != nil {
+								r.ListHdr = lr.Header.Revision
+							}
+							r.ListN = len(lr.Kvs)
+							for _, kv := range lr.Kvs {
+								if kv.Revision > r.ListKvRev {
+									r.ListKvRev = kv.Revision
+								}
+							}
+						}
 						gr, rerr := env.B.Get(ctx, &proto.GetRequest{Key: []byte(key), Revision: hdr.Revision})
 						if rerr != nil {
 							r.ReadErr = rerr.Error()
@@ -837,6 +869,9 @@ func (h *ConcHistory) CheckRevisions() error {
 	for _, r := range h.Ops {
 		if r.HasKv && r.Outcome != "err" && r.Rev < r.KvRev {
 			return fmt.Errorf("%s: header revision %d is smaller than the revision %d of the kv it returns", r, r.Rev, r.KvRev)
+		}
+		if r.DidRead && r.ListErr == "" && r.ListN > 0 && r.ListHdr < r.ListKvRev {
+			return fmt.Errorf("%s: range read back at revision %d, the answer's header revision %d is smaller than the revision %d of a kv it carries", r, r.Rev, r.ListHdr, r.ListKvRev)
 		}
 		if !r.DidRead || r.ReadErr != "" {
 			continue
